@@ -1073,14 +1073,61 @@ fn lat_children(shape: i64, n: usize, i: usize) -> Vec<(usize, usize)> {
     }
 }
 
+pub const LAT_NS_QUICK: [usize; 18] = [1, 2, 3, 4, 5, 6, 7, 8, 9, 10, 11, 12, 13, 40, 100, 1000, 1025, 2049];
+
+/// grid 0 (quick) / 1 (thorough): (n list, ages)
+fn lat_grid(grid: i64) -> (&'static [usize], &'static [usize]) {
+    if grid == 0 {
+        (&LAT_NS_QUICK, &[3, 4])
+    } else {
+        (&LAT_NS, &[3, 4, 5, 6])
+    }
+}
+
+pub fn latency_cases(grid: i64) -> i64 {
+    let (ns, ages) = lat_grid(grid);
+    (ns.len() * 4 * 16 * ages.len() * 2) as i64
+}
+
 fn latency(p: &Params) -> Program {
-    let n = p.get("n", 10) as usize;
-    let shape = p.get("shape", 0);
-    let age = p.get("age", 4) as usize;
+    // case -> (n, shape, held selector, age, mode)
+    let (ns, ages) = lat_grid(p.get("grid", 0));
+    let mut k = p.get("case", 0) as usize;
+    let mode = (k % 2) as i64;
+    k /= 2;
+    let age = ages[k % ages.len()];
+    k /= ages.len();
+    let held_sel = k % 16;
+    k /= 16;
+    let shape = (k % 4) as i64;
+    k /= 4;
+    let n = ns[k % ns.len()];
     // held: -1 none, otherwise index of an externally held node
-    let held = p.get("held", -1);
+    let held: i64 = match held_sel {
+        0 => -1,
+        1 => 1,
+        2 => (n / 2) as i64,
+        3 => n as i64 - 1,
+        s => {
+            if n <= 14 {
+                s as i64 - 2
+            } else {
+                -2
+            }
+        }
+    };
+    let skip = held == -2 || held >= n as i64 || (held_sel != 0 && held <= 0);
+    let held = if skip { -1 } else { held };
     // mode 0: links written with store() (stamped); 1: links created by AtomicRc::from (unstamped)
-    let mode = p.get("mode", 0);
+    if skip {
+        // not a distinct grid point for this n
+        return Program {
+            setup: Some(body(|_, _| {
+                mon().cover("skipped-duplicate");
+            })),
+            ..base(p)
+        };
+    }
     Program {
         setup: Some(body(move |c, _w| {
             let g = c.pin();
@@ -1199,13 +1246,26 @@ fn latency(p: &Params) -> Program {
 
 // ---------------------------------------------------------------------------------- C12 (d)
 
+pub fn decision_triples() -> &'static Vec<(usize, usize, usize)> {
+    static S: OnceLock<Vec<(usize, usize, usize)>> = OnceLock::new();
+    S.get_or_init(|| {
+        let mut v = vec![];
+        for ap in 3..=20 {
+            for al in ap..=24 {
+                for a_s in 0..=24 {
+                    v.push((ap, al, a_s));
+                }
+            }
+        }
+        v
+    })
+}
+
 fn cascade_decision(p: &Params) -> Program {
     // True ages (in epochs, at the time the parent's cascade runs) of the parent's stamp (>= 3,
     // the epoch it was unlinked in), of the link's stamp (>= the parent's: it is written while the
     // parent is reachable) and of the child's own stamp (its last decrement that left it alive).
-    let a_p = p.get("ap", 3) as usize;
-    let a_l = p.get("al", 3) as usize;
-    let a_s = p.get("as", 3) as usize;
+    let (a_p, a_l, a_s) = decision_triples()[p.get("case", 0) as usize];
     assert!(a_p >= 3 && a_l >= a_p);
     Program {
         setup: Some(body(move |c, w| {
